@@ -402,6 +402,8 @@ class World:
             obs = self.observable(n)
             if obs == "unpinned":
                 st[n] = None
+            elif obs == "live":
+                st[n] = "live"  # submitted or running, either is right
             elif obs in ("submitted", "running", "failed", "cancelled"):
                 st[n] = obs
             elif dep_unknown:
@@ -486,6 +488,14 @@ class World:
                 self.probe("unpinned_rows")
                 continue
             got = rows[n]
+            if want == "live":
+                self.probe("live_either_rows")
+                if got not in ("submitted", "running"):
+                    j = self.job_of(n)
+                    self.flag("C08", "live_job_not_reported_live",
+                              f"target {n}: job {self.latest.get(n)} is alive with scheduler state "
+                              f"{j.code if j else '?'} but gwf says {got}", code=j.code if j else "?", got=got)
+                continue
             obs = self.observable(n)
             deps_done = all(exp[d] == "completed" for d in self.model.deps(n))
             if obs in ("success", "none") and deps_done:
@@ -530,7 +540,7 @@ class World:
         """Compare the submissions received by the scheduler during `gwf run` with M_plan."""
         plan = self.m_plan(patterns, pre_status)
         got_names = [a[0] for a in res.accepted]
-        if any(v is None for v in pre_status.values()):
+        if any(v is None or v == "live" for v in pre_status.values()):
             return
         self.probe("plan_checks")
         if plan:
